@@ -57,6 +57,10 @@ func (m *MsgCreateSpendingPool) ValidateBasic() error {
 			return ErrEmptyWeightBeneficiary
 		}
 	}
+	// the gov end-blocker tallies the pool's proposals against this quorum: it is a fraction
+	if m.VoteQuorum.IsNil() || m.VoteQuorum.IsNegative() || m.VoteQuorum.GT(sdk.OneDec()) {
+		return ErrInvalidVoteQuorum
+	}
 	return nil
 }
 
